@@ -6,6 +6,7 @@ from fractions import Fraction
 from hypothesis import strategies as st
 
 from ..core import Check, Violation
+from .. import fuzz as _fuzz
 from ..ref import lexer as RL
 from .. import util
 
@@ -447,4 +448,6 @@ CHECKS = [
     Check("token_soup_vs_reference", check_soup, soup_case, quick=600, thorough=25000),
     Check("spelled_tokens", check_spelled, spelled_tokens, quick=300, thorough=10000),
     Check("scalars_and_invalid_utf8", check_scalars, enumerate_fn=scalar_chunks, exhaustive=True),
+    _fuzz.replay_check(["lex_tile"]),
 ]
+FUZZ = [("lex_tile", 2_000_000, 400)]
